@@ -8,8 +8,8 @@ PID = "C14"
 TIERS = {
     # gen: generated knotted structures; shards: interpreters per seed; max_comp: largest conflict component for
     # which the factorial enumeration behind all_dot_brackets is requested on corpus structures
-    "quick":    dict(gen=120, shards=3, max_comp=7, mc_required="MC_Determinism_Required.cfg"),
-    "thorough": dict(gen=1200, shards=4, max_comp=9, mc_required="MC_Determinism_Required_T.cfg"),
+    "quick":    dict(gen=120, maps=60, shards=3, max_comp=7, mc_required="MC_Determinism_Required.cfg"),
+    "thorough": dict(gen=1200, maps=800, shards=4, max_comp=9, mc_required="MC_Determinism_Required_T.cfg"),
 }
 
 
@@ -24,7 +24,15 @@ def tasks_for(tier):
     gen = det.generated_cases(t["gen"], lib.seed())
     for g in gen:
         g["weight"] = 1
-    return tasks + gen, gen
+    # Mapping2D3D with generated conflicting pair lists on a carrier structure, one batch per shard
+    lists = det.pairlist_cases(t["maps"], lib.seed())
+    carrier = os.path.join(lib.REPO, "tests", "1ehz-assembly-1.cif")
+    nb = t["shards"]
+    for k in range(nb):
+        part = lists[k::nb]
+        if part:
+            tasks.append({"kind": "map", "name": f"maps-{k}", "path": carrier, "lists": part, "weight": len(part) // 4 + 1})
+    return tasks + gen, gen + lists
 
 
 def validate(cases, rep, sc, what="C14"):
@@ -74,9 +82,11 @@ def run(tier):
         cov["rule"] = (f"{nproc} fresh interpreters = PYTHONHASHSEED in {seeds} x {t['shards']} shards; each observes every "
                        f"input twice (repeated call, fresh objects). Inputs: {len(det.corpus(tier))} structure files of "
                        f"$VERIF_REPO/tests (annotator CLI with --json --csv --bpseq --dot --extended --pml --inter-stem-csv "
-                       f"--stems-csv, plain, --all-dot-brackets; library API; parser_v2 write_pdb/write_cif) + {len(gen)} "
+                       f"--stems-csv, plain, --all-dot-brackets; library API; parser_v2 write_pdb/write_cif) + {t['gen']} "
                        "seeded knotted structures with a clique of 3..5 mutually crossing stems, components <= 6 stems "
-                       "(BpSeq.all_dot_brackets / fcfs / dot_bracket / elements). One case = all observations of one "
+                       f"(BpSeq.all_dot_brackets / fcfs / dot_bracket / elements) + {t['maps']} generated base-pair lists "
+                       "with 1..3 conflicting canonical pairs and multi-partner non-canonical pairs mapped by Mapping2D3D "
+                       "onto 1ehz (bpseq, dot_bracket, extended_dot_bracket, all_dot_brackets). One case = all observations of one "
                        "(input, artefact). Non-trivial = error-free case whose artefact is a non-empty text or a list "
                        "with >= 2 members.")
         cov["distinct_nontrivial"] = len({c["id"] for c in nontrivial})
